@@ -655,6 +655,15 @@ def c05_check(case):
         g2 = layout.interpret(t2, m)
         if graph_content(g0, m) != graph_content(g2, m):
             return f'reconfigure changed the graph: {t2.node!r}'
+    # reconfigure of the same content given WITHOUT an explicit top and without markers keeps the (implicit) top
+    if not is_noop(case['model']) and wf_graph(g0, m) and not case.get('random'):
+        gh = Graph(list(g0.triples))
+        try:
+            t4 = layout.reconfigure(gh, model=m, key=ops.key_fn(m, case['key']))
+        except Exception as e:  # noqa: BLE001
+            return f'reconfigure of a hand-built graph raised {type(e).__name__}: {e}'
+        if t4.node[0] != gh.top:
+            return f'reconfigure changed the top {gh.top!r} -> {t4.node[0]!r}'
     # every variable as new top (on the decoded graph, which carries markers)
     if not is_noop(case['model']) and wf_graph(g0, m):
         for v in sorted(g0.variables()):
@@ -1733,7 +1742,8 @@ def c20_gen(rng):
         if maybe(rng, 0.3):
             opts[k] = True
     if maybe(rng, 0.3):
-        opts['rearrange'] = {'keys': rng.choice([['canonical'], ['alphanumeric'], ['invertedLast']]),
+        opts['rearrange'] = {'keys': rng.choice([['canonical'], ['alphanumeric'], ['invertedLast'], ['invertedLast', 'alphanumeric'],
+                                                 ['alphanumeric', 'invertedLast']]),
                              'attributesFirst': maybe(rng, 0.3)}
     if maybe(rng, 0.25):
         opts['makeVariables'] = rng.choice(gen.FMTS[:5])
